@@ -178,24 +178,30 @@ structure SelSt where
   addr : Nat
   deriving Repr, DecidableEq, Inhabited
 
-/-- The patched `clamp_selected_hop`: a selected flow that is no longer part of the snapshot falls
-back to the combined flow (and leaves the flows view), an empty hop list clears the selection, a
-selection past the end moves to the last hop, and the address index is reset when it no longer
-refers to an address of the selected hop. -/
-def clampCore (snap : Shape) (x : SelSt) : R SelSt :=
-  let x1 : SelSt :=
-    if x.flow != 0 && (findFlow snap x.flow).isNone then { x with flow := 0, showFlows := false, addr := 0 }
+/-- patched `clamp_selected_hop`, step 1: a selected flow that is no longer part of the snapshot
+falls back to the combined flow and leaves the flows view -/
+def clampFlow (snap : Shape) (x : SelSt) : SelSt :=
+  if x.flow != 0 && (findFlow snap x.flow).isNone then { x with flow := 0, showFlows := false, addr := 0 }
+  else x
+
+/-- step 2: an empty hop list clears the selection, a selection past the end moves to the last hop -/
+def clampSel (hopCount : Nat) (x : SelSt) : SelSt :=
+  match x.sel with
+  | none => x
+  | some sel =>
+    if hopCount == 0 then { x with sel := none, addr := 0 }
+    else if sel > hopCount - 1 then { x with sel := some (hopCount - 1), addr := 0 }
     else x
-  do
-    let hs ← hopsForFlow snap x1.flow
-    let x2 : SelSt :=
-      match x1.sel with
-      | none => x1
-      | some sel =>
-        if hs.length == 0 then { x1 with sel := none, addr := 0 }
-        else if sel > hs.length - 1 then { x1 with sel := some (hs.length - 1), addr := 0 }
-        else x1
-    pure (if x2.addr ≥ max 1 (addrCountAt hs x2.sel) then { x2 with addr := 0 } else x2)
+
+/-- step 3: the address index is reset when it does not refer to an address of the selected hop -/
+def clampAddr (hs : List HopS) (x : SelSt) : SelSt :=
+  if x.addr ≥ max 1 (addrCountAt hs x.sel) then { x with addr := 0 } else x
+
+/-- The patched `clamp_selected_hop`. -/
+def clampCore (snap : Shape) (x : SelSt) : R SelSt := do
+  let x1 := clampFlow snap x
+  let hs ← hopsForFlow snap x1.flow
+  pure (clampAddr hs (clampSel hs.length x1))
 
 /-- `clamp_selected_hop`.
 Current code: `if selected > hop_count - 1` underflows when the selected flow has no hops (and
